@@ -4,6 +4,7 @@
 use std::sync::{Arc, Mutex};
 
 use better_any::{Tid, TidAble};
+use mahf::state::common::Progress;
 use mahf::{
     component::ExecResult,
     conditions::EveryN,
@@ -82,7 +83,9 @@ impl Condition<P> for TrigScripted {
 }
 
 fn short_name(n: &str) -> &'static str {
-    if n.ends_with("::K0") {
+    if n.contains("Progress<") {
+        "PG"
+    } else if n.ends_with("::K0") {
         "K0"
     } else if n.ends_with("::U") {
         "U"
@@ -95,8 +98,13 @@ fn short_name(n: &str) -> &'static str {
     }
 }
 
+/// integers as they are; the float state PG (a multiple of 0.75) in quarters
 fn val(v: &Value) -> i64 {
-    v.as_i64().unwrap_or(NOVAL)
+    match (v.as_i64(), v.as_f64()) {
+        (Some(i), _) => i,
+        (None, Some(f)) => (f * 4.0).round() as i64,
+        _ => NOVAL,
+    }
 }
 
 /// the log as mahf serialises it directly: ordered steps of {name, value}
@@ -213,6 +221,8 @@ impl Component<P> for VLeaf {
         }
         if self.variant == "ins0" {
             state.insert(K0(0));
+            // a float state kept next to K0 (PG = 0.75 * K0: also values above 1)
+            state.insert(Progress::<ValueOf<K0>>::default());
         }
         Ok(())
     }
@@ -233,8 +243,13 @@ impl Component<P> for VLeaf {
             return Err(eyre::eyre!("injected fault"));
         }
         if self.variant == "ins0" {
+            let mut now = None;
             if let Ok(mut k) = state.try_borrow_value_mut::<K0>() {
                 *k += 1;
+                now = Some(*k);
+            }
+            if let (Some(k), Ok(mut p)) = (now, state.try_borrow_value_mut::<Progress<ValueOf<K0>>>()) {
+                *p = k as f64 * 0.75;
             }
         }
         Ok(())
@@ -305,12 +320,19 @@ pub fn build_body(mut b: ConfigurationBuilder<P>, body: &Value, path: &[u32], ct
                 b.do_(mahf::components::control_flow::Scope::new_with(
                     |state| {
                         state.insert(U(5));
-                        Ok(())
+                        // a rule for the sub-heuristic, added to the log configuration of the run
+                        state.configure_log(|c| {
+                            c.with(Box::new(TrigConst(true)), ValueOf::<U>::entry::<P>());
+                            Ok(())
+                        })
                     },
                     inner,
                     |state, child| {
                         if child.contains_at_top::<U>() && child.get_value::<U>() == 5 {
                             state.insert(K0(5));
+                            let mut pg = Progress::<ValueOf<K0>>::default();
+                            *pg = 5.0 * 0.75;
+                            state.insert(pg);
                         }
                         Ok(())
                     },
@@ -380,7 +402,8 @@ fn run_case(out: &mut Out, run: u64, case: &Value) {
     if rootit != NOVAL {
         state.insert(Iterations(rootit as u32));
     }
-    if !rules.as_array().unwrap().is_empty() {
+    {
+        // the run always has a log configuration (possibly without rules)
         let mut cfg = LogConfig::<P>::new();
         for r in rules.as_array().unwrap() {
             let trigger: Box<dyn Condition<P>> = match r["tk"].as_str().unwrap() {
@@ -395,6 +418,7 @@ fn run_case(out: &mut Out, run: u64, case: &Value) {
                 "U" => ValueOf::<U>::entry::<P>(),
                 "IT" => ValueOf::<Iterations>::entry::<P>(),
                 "MISSING" => ValueOf::<Missing>::entry::<P>(),
+                "PG" => ValueOf::<Progress<ValueOf<K0>>>::entry::<P>(),
                 other => panic!("unknown source {other}"),
             };
             cfg.with(trigger, extractor);
@@ -505,7 +529,7 @@ pub fn main(args: &Args) -> usize {
                     let rules: Vec<Value> = (0..nrules)
                         .map(|_| {
                             let tk = ["always", "never", "every2", "scripted"][rng.gen_range(0..4)];
-                            let src = ["K0", "U", "IT", "MISSING"][rng.gen_range(0..4)];
+                            let src = ["K0", "U", "IT", "MISSING", "PG"][rng.gen_range(0..5)];
                             json!({"tk": tk, "src": src})
                         })
                         .collect();
